@@ -302,14 +302,11 @@ func init() {
 		oracles: eng.Oracles{Content: true, Reopen: true, Store: true},
 		gen: func(r *eng.Rng, idx int, th bool) *eng.Program {
 			cfg := eng.GenConfig(r, pickBacking(r, "none", "store", "store", "store"), false)
-			// Merge operands only where no partial compaction can run: what
-			// MB-29664 (known finding KF-05 of C08) does to them is C08's
-			// business, C11 is about the tree of collections
-			merge := r.Chance(1, 2) && !(cfg.Backing == "store" && cfg.Concern == 1)
+			merge := r.Chance(1, 3)
 			cfg.MergeOp = merge
 			gp := eng.GenParams{MinBatches: 4, MaxBatches: 16, NKeys: 4 + r.Intn(5), Park: r.Chance(1, 2), Reopen: true, Merge: merge,
 				Children: true, Nested: r.Chance(1, 2), ChildOnlyPct: 25, DelOnlyPct: 12, Idle: true, FinalReopen: r.Chance(1, 2), QuietPct: 25}
-			if idx%4 == 1 && !merge {
+			if idx%4 == 1 {
 				eng.PartialCompactionProfile(r, &cfg, &gp)
 			}
 			return eng.GenProgram(r, "C11", cfg, gp)
